@@ -37,7 +37,7 @@ import (
 )
 
 func init() {
-	register(&Prop{ID: "C23", Module: "V.C23.Check", Gen: c23Gen, Quick: 120, Thorough: 3000, Shard: 9})
+	register(&Prop{ID: "C23", Module: "V.C23.Check", Gen: c23Gen, Quick: 100, Thorough: 3000, Shard: 8})
 }
 
 var c23Ruler *textmeasure.Ruler
@@ -481,6 +481,9 @@ func c23Run(sc c23Script) (cs Case) {
 // ---------------------------------------------------------------- generator
 
 var c23Names = []string{"alice", "bob", "carol", "dave", "erin", "frank", "grace", "heidi"}
+
+// IDs that are textual prefixes of one another (and of span paths)
+var c23PrefixNames = []string{"a", "a1", "a10", "ab", "user", "users", "db", "db2"}
 var c23Words = []string{"ok", "ping", "request", "a much longer message label", "x", "authenticate the user please",
 	"yes", "no", "a label that is wide enough to push the actors apart by a lot, really a lot", "commit", "ack\\nnack", "1\\n2\\n3"}
 
@@ -678,7 +681,13 @@ func c23Random(r *Rng, class string) c23Script {
 			na = 2
 		}
 	}
-	b.actors = append([]string{}, c23Names[:na]...)
+	pool := c23Names
+	outClass := class
+	if r.Chance(0.3) {
+		pool = c23PrefixNames
+		outClass = class + "-prefix-ids"
+	}
+	b.actors = append([]string{}, pool[:na]...)
 	// shuffle the declaration order of the names
 	for i := na - 1; i > 0; i-- {
 		j := r.Intn(i + 1)
@@ -706,7 +715,7 @@ func c23Random(r *Rng, class string) c23Script {
 		}
 	}
 	b.block("", 0, 40)
-	return c23Script{text: strings.Join(b.lines, "\n") + "\n", class: class, exp: b.exp}
+	return c23Script{text: strings.Join(b.lines, "\n") + "\n", class: outClass, exp: b.exp}
 }
 
 func c23Chain(n int, names []string, label bool) (string, []c23Exp) {
@@ -768,9 +777,12 @@ func c23Corpus() []c23Script {
 	// a label spread over three gaps with odd actor widths: Round() sees x.5 up to float noise
 	add("corpus", hdr+"alice: {width: 101}\nbob: {width: 103}\ncarol: {width: 105}\ndave: {width: 107}\nalice -> dave: a label that is five hundred units wide or thereabouts, give or take a few\nalice -> carol: a label that is also quite wide but over two gaps\n")
 	add("corpus", hdr+"carol: {width: 400}\nalice: {width: 10}\ncarol -> alice\n")
-	// genuine defect: nil LabelPosition
-	add("corpus-icon-near", hdr+"alice: {shape: person; icon: https://icons.terrastruct.com/essentials/004-picture.svg; icon.near: top-left}\nbob\nalice -> bob\n", "C23-icon-near-nil-label-position")
-	add("corpus-icon-near", hdr+"alice: {shape: image; icon: https://icons.terrastruct.com/essentials/004-picture.svg; icon.near: top-center}\n", "C23-icon-near-nil-label-position")
+	// regression for 26eb02421 (nil LabelPosition panic in addLifelineEdges)
+	add("corpus-icon-near", hdr+"alice: {shape: person; icon: https://icons.terrastruct.com/essentials/004-picture.svg; icon.near: top-left}\nbob\nalice -> bob\n")
+	add("corpus-icon-near", hdr+"alice: {shape: image; icon: https://icons.terrastruct.com/essentials/004-picture.svg; icon.near: top-center}\n")
+	// actors whose IDs are string prefixes of one another, messages in both directions, spans
+	add("corpus-prefix-ids", hdr+"a; a1; a10; ab\na -> a1: one\na10 -> a1: two\na1 -> a10\nab -> a: back\na.s -> a1.s: spans\na1.s -> a10\n")
+	add("corpus-prefix-ids", hdr+"user -> users: list\nusers -> user\ndb; db2\ndb2 -> db: sync\nuser -> db2\n")
 	// near misses of the defect
 	add("corpus", hdr+"alice: {icon: https://icons.terrastruct.com/essentials/004-picture.svg; icon.near: top-left}\nbob\nalice -> bob\n")
 	add("corpus", hdr+"alice: {shape: person; icon: https://icons.terrastruct.com/essentials/004-picture.svg}\nbob\nalice -> bob\n")
